@@ -156,6 +156,7 @@ package internal
 
 //@ func (*compiler).compileTask
 //@   option props=[C13]
+//@   modifies go.uber.org_cff_internal.flow.invokeTypes, go.uber.org_cff_internal.flow.invokeTypeCnt, go.uber.org_cff_internal.flow.predicateTypes, go.uber.org_cff_internal.flow.predicateTypeCnt, go.uber.org_cff_internal.compiler.errors, go.uber.org_cff_internal.compiler.taskSerial
 //@   requires $C && flow != nil
 //@   at call compileFunction 1 assume compiled-function-has-a-signature: implies(ret != nil, ret.Sig != nil)
 
@@ -258,7 +259,7 @@ package internal
 // the diagnostic; the loop invariant !dup is checked on every back edge), and a
 // flow with any diagnostic is rejected. C13: no-panic sweep of compileFlow.
 
-//@ macro FUNCSOK = forall(i, int, implies(0 <= i && i < len(flow.Funcs), flow.Funcs[i] != nil && flow.Funcs[i].Node != nil))
+//@ macro FUNCSOK = forall(i, int, implies(0 <= i && i < len(flow.Funcs), flow.Funcs[i] != nil && flow.Funcs[i].Node != nil)) && forall(i, int, implies(0 <= i && i < len(flow.Inputs), flow.Inputs[i] != nil)) && forall(i, int, implies(0 <= i && i < len(flow.Outputs), flow.Outputs[i] != nil)) && forall(i, int, implies(0 <= i && i < len(flow.invokeTypes), flow.invokeTypes[i] != nil))
 
 //@ func (*compiler).compileFlow
 //@   option props=[C13]
@@ -273,6 +274,7 @@ package internal
 //@   at call compileInstrument 1 pre assume typeChecked-instrument-arity: len(arg1.Args) == 1
 //@   at call Name 1 assume typeChecked-single-argument-options-have-their-argument: implies(ret == "Task" || ret == "Concurrency" || ret == "InstrumentFlow" || ret == "WithEmitter", len(ce.Args) >= 1)
 //@   at call compileTask 1 assume compiled-task-has-its-functions: implies(ret != nil, ret.Function != nil && ret.Function.Node != nil && implies(ret.Predicate != nil, ret.Predicate.Function != nil && ret.Predicate.Function.Node != nil))
+//@   at call compileTask 1 assume add-no-output-appends-a-fresh-sentinel: forall(i, int, implies(0 <= i && i < len(flow.invokeTypes), flow.invokeTypes[i] != nil))
 //@   loop 4 invariant providers-loop: $FUNCSOK && !dup
 //@   loop 5 invariant receivers-loop: $FUNCSOK && !dup
 //@   loop 6 invariant [C14] duplicate-provider-was-reported: !dup && $FUNCSOK
@@ -280,3 +282,47 @@ package internal
 //@   at call Set 5 ghost dup = ret != nil
 //@   at call errf 6 ghost dup = false
 //@   ensures@return4 [C14] accepted-flow-has-no-diagnostics: len(c.errors) == 0
+
+// C14, providers and unused values: the breadth-first walk from the flow's
+// results queues every dependency of every provider it meets; a needed type
+// with neither a provider nor a cff.Params value is reported; every cff.Params
+// value left unconsumed is reported; a task output nothing consumes is
+// reported. ("Reported" = the diagnostic is emitted before the iteration that
+// found the defect ends: ghost flags raised by the lookup, cleared only by
+// errf, required false on every back edge and at exit.)
+
+//@ macro QT = forall(i, int, implies(listlo(queue) <= i && i < listhi(queue), typeof(listat(queue, i)) == typeid("go.uber.org/cff/internal.validateVisitedType")))
+
+//@ func (*compiler).validateFuncs
+//@   option props=[C13]
+//@   ghost miss bool = false
+//@   ghost unusedLeft int = 0
+//@   requires $C && f != nil && f.providers != nil
+//@   requires funcs-non-nil: forall(i, int, implies(0 <= i && i < len(f.Funcs), f.Funcs[i] != nil && f.Funcs[i].Node != nil))
+//@   requires inputs-non-nil: forall(i, int, implies(0 <= i && i < len(f.Inputs), f.Inputs[i] != nil)) && forall(i, int, implies(0 <= i && i < len(f.Outputs), f.Outputs[i] != nil)) && forall(i, int, implies(0 <= i && i < len(f.invokeTypes), f.invokeTypes[i] != nil))
+//@   loop 2 invariant queue-holds-visit-records: $QT
+//@   loop 3 invariant queue-holds-visit-records: $QT
+//@   loop 4 invariant [C14] missing-provider-was-reported: !miss && $QT
+//@   at call At 2 assume providers-hold-function-indices: implies(typeof(ret) == typeid("int"), 0 <= dataof(ret) && dataof(ret) < len(f.Funcs))
+//@   loop 5 invariant [C14] dependencies-queued-so-far: 0 <= idx5 && idx5 <= len(fn.Dependencies) && !miss && $QT
+//@   at call PushBack 3 pre assert [C14] every-dependency-of-a-needed-provider-is-queued: unboxed(arg1).Type == fn.Dependencies[idx5]
+//@   at call Delete 1 ghost miss = !ret
+//@   at call errf 1 ghost miss = false
+//@   at call Len 2 assume typeutil-len-non-negative: ret >= 0
+//@   at call Len 2 ghost unusedLeft = ret
+//@   at call Keys 1 assume typeutil-keys-lists-every-entry: len(ret) == unusedLeft
+//@   at call At 3 assume input-map-holds-inputs: typeof(ret) == typeid("*go.uber.org/cff/internal.input") && dataof(ret) != 0
+//@   loop 6 invariant [C14] one-diagnostic-per-unused-input: 0 <= idx6 && idx6 <= len(inputs) && unusedLeft + idx6 == len(inputs)
+//@   at call errf 2 ghost unusedLeft = unusedLeft - 1
+//@   ensures [C14] every-unused-input-and-missing-provider-was-reported: !miss && unusedLeft == 0
+
+//@ func (*compiler).validateNoUnusedOutputTypes
+//@   option props=[C13]
+//@   ghost unused bool = false
+//@   requires $C && f != nil && f.receivers != nil
+//@   requires funcs-non-nil: forall(i, int, implies(0 <= i && i < len(f.Funcs), f.Funcs[i] != nil && f.Funcs[i].Node != nil))
+//@   loop 1 invariant !unused
+//@   loop 2 invariant [C14] unconsumed-output-was-reported: !unused
+//@   at call At 1 ghost unused = ret == nil
+//@   at call errf 1 ghost unused = false
+//@   ensures [C14] every-unconsumed-output-was-reported: !unused
